@@ -96,17 +96,25 @@ def joinS (l : List String) : String := " ".intercalate l
 
 /-! ### Quadratic prior: exact rational evaluation -/
 section quadratic
-def St.imgQ (s : St) (a : Array Hex) : Img Rat := mkImg 0 s.b (a.map Hex.toRat)
-def St.imgQabs (s : St) (a : Array Hex) : Img Rat := mkImg 0 s.b (a.map fun h => absR h.toRat)
+/- NB: converted arrays are bound with `let` *before* `mkImg` is partially applied: a definition returning an `Img`
+   is compiled as a function of the indices as well and would redo the conversion at every lookup. -/
+def arrQ (a : Array Hex) : Array Rat := a.map Hex.toRat
+def arrQabs (a : Array Hex) : Array Rat := a.map fun h => absR h.toRat
 
 def answerQ (s : St) (toks : List String) : String :=
   let I (t : String) : Int := t.toInt?.getD 0
   let pf := s.pf.toRat
-  let w : Img Rat := mkImg 0 s.wb (s.w.map Hex.toRat)
-  let wA : Img Rat := mkImg 0 s.wb (s.w.map fun h => absR h.toRat)
-  let κ : Option (Img Rat) := s.kappa.map fun a => s.imgQ a
-  let κA : Option (Img Rat) := s.kappa.map fun a => s.imgQabs a
-  let cur := s.imgQ s.cur
+  let wArr := arrQ s.w; let wAArr := arrQabs s.w
+  let w : Img Rat := mkImg 0 s.wb wArr
+  let wA : Img Rat := mkImg 0 s.wb wAArr
+  let kArr := s.kappa.map arrQ; let kAArr := s.kappa.map arrQabs
+  let κ : Option (Img Rat) := kArr.map fun a => mkImg 0 s.b a
+  let κA : Option (Img Rat) := kAArr.map fun a => mkImg 0 s.b a
+  let curArr := arrQ s.cur
+  let cur : Img Rat := mkImg 0 s.b curArr
+  let inpArr := arrQ s.inp; let outArr := arrQ s.out; let inpAArr := arrQabs s.inp; let outAArr := arrQabs s.out
+  let inp : Img Rat := mkImg 0 s.b inpArr; let out : Img Rat := mkImg 0 s.b outArr
+  let inpA : Img Rat := mkImg 0 s.b inpAArr; let outA : Img Rat := mkImg 0 s.b outAArr
   let one2 : Rat → Rat → Rat := fun _ _ => 1
   let vm (v m : Rat) : String := fmtRat v ++ ":" ++ fmtRat m
   match toks with
@@ -116,8 +124,6 @@ def answerQ (s : St) (toks : List String) : String :=
     joinS <| (voxels s.b).map fun (z, y, x) =>
       vm (qGrad pf w κ s.b s.wb cur z y x) (gradCore (fun a b => absR (a - b)) (absR pf) wA κA s.b s.wb cur z y x)
   | ["htimes"] =>
-    let inp := s.imgQ s.inp; let out := s.imgQ s.out
-    let inpA := s.imgQabs s.inp; let outA := s.imgQabs s.out
     joinS <| (voxels s.b).map fun (z, y, x) =>
       vm (qHessTimes pf w κ s.b s.wb cur inp out z y x)
          (outA z y x + hessTimesCore one2 one2 (absR pf) wA κA s.b s.wb cur inpA z y x)
@@ -126,8 +132,6 @@ def answerQ (s : St) (toks : List String) : String :=
       vm (qHessRow pf w κ s.b s.wb cur (I cz) (I cy) (I cx) z y x)
          (hessRowCore one2 one2 (absR pf) wA κA s.b s.wb cur (I cz) (I cy) (I cx) z y x)
   | ["approx"] =>
-    let inp := s.imgQ s.inp; let out := s.imgQ s.out
-    let inpA := s.imgQabs s.inp; let outA := s.imgQabs s.out
     joinS <| (voxels s.b).map fun (z, y, x) =>
       vm (qApproxHessTimes pf w κ s.b s.wb inp out z y x)
          (if pf == 0 then outA z y x else qApproxHessTimes (absR pf) wA κA s.b s.wb inpA outA z y x)
@@ -139,8 +143,8 @@ end quadratic
 
 /-! ### RDP, log-cosh, PLS, default weights: `Float` evaluation -/
 section float
-def St.imgF (s : St) (a : Array Hex) : Img Float := mkImg 0 s.b (a.map Hex.toFloat)
-def St.imgFabs (s : St) (a : Array Hex) : Img Float := mkImg 0 s.b (a.map fun h => h.toFloat.abs)
+def arrF (a : Array Hex) : Array Float := a.map Hex.toFloat
+def arrFabs (a : Array Hex) : Array Float := a.map fun h => h.toFloat.abs
 
 def vmF (v m : Float) : String := fmtFloat v ++ ":" ++ fmtFloat m
 
@@ -149,11 +153,17 @@ def answerNb (s : St) (toks : List String) : String :=
   let I (t : String) : Int := t.toInt?.getD 0
   let pf := s.pf.toFloat
   let γ := s.gamma.toFloat; let ε := s.eps.toFloat; let sc := s.scalar.toFloat
-  let w : Img Float := mkImg 0 s.wb (s.w.map Hex.toFloat)
-  let wA : Img Float := mkImg 0 s.wb (s.w.map fun h => h.toFloat.abs)
-  let κ : Option (Img Float) := s.kappa.map fun a => s.imgF a
-  let κA : Option (Img Float) := s.kappa.map fun a => s.imgFabs a
-  let cur := s.imgF s.cur
+  let wArr := arrF s.w; let wAArr := arrFabs s.w
+  let w : Img Float := mkImg 0 s.wb wArr
+  let wA : Img Float := mkImg 0 s.wb wAArr
+  let kArr := s.kappa.map arrF; let kAArr := s.kappa.map arrFabs
+  let κ : Option (Img Float) := kArr.map fun a => mkImg 0 s.b a
+  let κA : Option (Img Float) := kAArr.map fun a => mkImg 0 s.b a
+  let curArr := arrF s.cur
+  let cur : Img Float := mkImg 0 s.b curArr
+  let inpArr := arrF s.inp; let outArr := arrF s.out; let inpAArr := arrFabs s.inp; let outAArr := arrFabs s.out
+  let inp : Img Float := mkImg 0 s.b inpArr; let out : Img Float := mkImg 0 s.b outArr
+  let inpA : Img Float := mkImg 0 s.b inpAArr; let outA : Img Float := mkImg 0 s.b outAArr
   let rdp := s.kind == 1
   -- the potential functions of this prior, and |.| versions carrying the conditioning of the float evaluation
   let d10 : Float → Float → Float := if rdp then rdpD10 γ ε else lcD10 sc
@@ -175,8 +185,6 @@ def answerNb (s : St) (toks : List String) : String :=
     joinS <| (voxels s.b).map fun (z, y, x) =>
       vmF (grad d10 pf w κ s.b s.wb cur z y x) (gradCore d10A pf.abs wA κA s.b s.wb cur z y x)
   | ["htimes"] =>
-    let inp := s.imgF s.inp; let out := s.imgF s.out
-    let inpA := s.imgFabs s.inp; let outA := s.imgFabs s.out
     joinS <| (voxels s.b).map fun (z, y, x) =>
       vmF (hessTimes d20 d11 pf w κ s.b s.wb cur inp out z y x)
           (outA z y x + hessTimesCore d20A d11A pf.abs wA κA s.b s.wb cur inpA z y x)
@@ -190,24 +198,33 @@ def answerNb (s : St) (toks : List String) : String :=
   | _ => "bad-op"
 
 /-- evaluate an image once on the box and store it (the C++ keeps these intermediate images in arrays, too) -/
-def materialise (b : Box) (f : Img Float) : Img Float :=
-  mkImg 0 b ((voxels b).map fun (z, y, x) => f z y x).toArray
+def materialise (b : Box) (f : Img Float) : Array Float :=
+  ((voxels b).map fun (z, y, x) => f z y x).toArray
 
 /-- PLS (`kind = 3`).  The implementation evaluates everything in `float`; the conditioning of
     `sqrt(alpha^2 + |g|^2 - <g,xi>^2)` enters the magnitude as `(alpha^2 + 2|g|^2) / penalty^2`. -/
 def answerPls (s : St) (toks : List String) : String :=
   let pf := s.pf.toFloat
   let α := s.alpha.toFloat; let η := s.eta.toFloat
-  let κ : Option (Img Float) := s.kappa.map fun a => s.imgF a
-  let cur := s.imgF s.cur
+  let kArr := s.kappa.map arrF
+  let κ : Option (Img Float) := kArr.map fun a => mkImg 0 s.b a
+  let curArr := arrF s.cur; let anatArr := arrF s.anat
+  let cur : Img Float := mkImg 0 s.b curArr
+  let anat : Img Float := mkImg 0 s.b anatArr
   let only2d := s.only2d   -- the harness calls set_only_2D() after construction
-  let mat := materialise s.b
-  -- `set_up` and `compute_inner_product_and_penalty`, stage by stage as in `plsSetUp` / `plsFields`
-  let A0 := plsSetUp only2d η s.b (s.imgF s.anat)
-  let A : PlsAnat Float := { az := mat A0.az, ay := mat A0.ay, ax := mat A0.ax, norm := mat A0.norm }
-  let gz := mat (plsGradElem s.b 0 cur); let gy := mat (plsGradElem s.b 1 cur); let gx := mat (plsGradElem s.b 2 cur)
-  let ip := mat (plsInner only2d A gz gy gx)
-  let pen := mat (plsPenalty only2d α ip gz gy gx)
+  -- `set_up` and `compute_inner_product_and_penalty`, stage by stage as in `plsSetUp` / `plsFields`; every stage is
+  -- evaluated once on the box and stored, as the C++ does
+  let A0 := plsSetUp only2d η s.b anat
+  let azA := materialise s.b A0.az; let ayA := materialise s.b A0.ay; let axA := materialise s.b A0.ax
+  let nA := materialise s.b A0.norm
+  let A : PlsAnat Float := { az := mkImg 0 s.b azA, ay := mkImg 0 s.b ayA, ax := mkImg 0 s.b axA, norm := mkImg 0 s.b nA }
+  let gzA := materialise s.b (plsGradElem s.b 0 cur); let gyA := materialise s.b (plsGradElem s.b 1 cur)
+  let gxA := materialise s.b (plsGradElem s.b 2 cur)
+  let gz : Img Float := mkImg 0 s.b gzA; let gy : Img Float := mkImg 0 s.b gyA; let gx : Img Float := mkImg 0 s.b gxA
+  let ipA := materialise s.b (plsInner only2d A gz gy gx)
+  let ip : Img Float := mkImg 0 s.b ipA
+  let penA := materialise s.b (plsPenalty only2d α ip gz gy gx)
+  let pen : Img Float := mkImg 0 s.b penA
   let F : PlsFields Float := { gz := gz, gy := gy, gx := gx, ip := ip, pen := pen }
   let g2 (z y x : Int) : Float := (if only2d then 0 else sq (gz z y x)) + sq (gy z y x) + sq (gx z y x)
   let cond (z y x : Int) : Float := (sq α + 2 * g2 z y x) / sq (pen z y x)
